@@ -9,7 +9,7 @@ CONSTANTS
   ProbeBlocks = {0,1,2}
   Depth = 5
   CopyOnRead = TRUE
-  InitModes = {"empty","cold"}
+  InitModes = {"empty"}
   InitIds = {100}
   InitVal = "i:1"
   Sample = FALSE
